@@ -29,7 +29,12 @@ def points(box):
     edge = [(minx, miny), (maxx, maxy), (minx, maxy), (maxx, miny), (minx, cy), (maxx, cy), (cx, miny), (cx, maxy)]
     outside = [(minx - 0.25, cy), (maxx + 0.25, cy), (cx, miny - 0.25), (cx, maxy + 0.25), (179.75, cy), (-179.75, cy),
                (cx, -89.5), (cx, 89.5)]
-    ok = lambda p: -90.0 <= p[1] <= 90.0 and -180.0 <= p[0] <= 180.0  # noqa: E731 - positions must be valid coordinates
+    # positions are valid coordinates -- except for boxes that themselves reach beyond the globe (0..360 longitudes): there the
+    # box is what the operator said, and a longitude of 200 inside it is inside it
+    beyond = maxx > 180.0 or minx < -180.0
+    ok = lambda p: -90.0 <= p[1] <= 90.0 and (beyond and -360.0 <= p[0] <= 360.0 or -180.0 <= p[0] <= 180.0)  # noqa: E731
+    if beyond:
+        inside = inside + [(min(maxx, 200.0), cy), (min(maxx, 359.0) - 0.5, cy)]
     return [p for p in inside if ok(p)], [p for p in edge if ok(p)], [p for p in outside if ok(p)]
 
 
@@ -156,11 +161,11 @@ def run(ctx) -> None:
     # gridded positions (N-D lon / lat) in C order, Fortran order, as transposed views, and mixed: the flag of a position sits
     # at that position's index, hops follow the C-order sequence of the elements
     for _ in range(ctx.pick(40, 200)):
-        r_, c_ = rng.choice([(2, 3), (3, 2), (2, 2), (3, 4)])
+        r_, c_ = rng.choice([(2, 3), (3, 2), (2, 2), (3, 4), (1, 4), (1, 6), (5, 1)])
         box = [10.0, 40.0, 12.0, 42.0]
         flat_lon = [rng.choice([9.5, 10.0, 10.5, 11.0, 12.0, 12.5, None]) for _ in range(r_ * c_)]
         flat_lat = [rng.choice([39.5, 40.0, 41.0, 42.0, 42.5, None]) for _ in range(r_ * c_)]
-        rm = rng.choice([None, None, 60000.0])
+        rm = rng.choice([None, None, 60000.0]) if r_ > 1 else 60000.0
         want = [sorted(s_) for s_ in models.location(flat_lon, flat_lat, tuple(box), rm)]
         lo2, la2 = gen.arr(flat_lon).reshape(r_, c_), gen.arr(flat_lat).reshape(r_, c_)
         lays = {"C": lambda a: np.ascontiguousarray(a), "F": lambda a: np.asfortranarray(a), "T-view": lambda a: np.ascontiguousarray(a.T).T}
